@@ -8,6 +8,7 @@ that change the algorithm (multiplier threshold, Yao vs GMW builders).
 """
 import hashlib
 import json
+import os
 import re
 
 import vlib
@@ -17,15 +18,20 @@ LEVEL = "translation_validation"
 THEOREMS = [
     "Mpc.absOp_sound",
     "Mpc.ssa_sem",
+    "Mpc.passGates_inv",
     "Mpc.checkRefines_sound",
+    "Mpc.perm_eval",
+    "Mpc.sort_topological",
     "Mpc.C09_checker_sound",
     "Mpc.C09_checker_wf",
-    "Mpc.C09_checker_refl_example",
+    "Mpc.C09_options_preserve_meaning_partial",
+    "Mpc.C09_absRun_ssa",
     "Mpc.C09_perm_eval",
     "Mpc.C09_sort_topological",
     "Mpc.C09_levels",
+    "Mpc.C09_assignLevels_mono",
+    "Mpc.C09_levels_yao",
     "Mpc.C09_gmw_schedule",
-    "Mpc.C09_assignLevels_gmw_monotone",
     "Mpc.C09_target_equivalence_fails",
 ]
 
@@ -57,11 +63,11 @@ def facts(ctx):
     ctx.fact("gmw.Network.Run schedule: per level the non-AND gates, then the AND batch",
              [sched.find("range rest[i]") >= 0, 0 <= sched.find("range rest[i]") < sched.find("andBatchFlush(ands[i])")],
              [True, True])
-    mul = vlib.go_func_body("compiler/circuits/circ_multiplier.go", r"NewMultiplier") or ""
+    mul = vlib.go_func_body("compiler/circuits/circ_multiplier.go", r"NewMultiplier\(") or ""
     ctx.fact("NewMultiplier dispatch (GMW: Wallace; Yao: Karatsuba with threshold table when < 8)",
              ["c.Params.Target == utils.TargetGMW" in mul and "NewWallaceMultiplier" in mul,
               "arrayTreshold < 8" in mul, "NewKaratsubaMultiplier(c, arrayTreshold" in mul], [True, True, True])
-    div = vlib.go_func_body("compiler/circuits/circ_divider.go", r"NewUDivider") or ""
+    div = vlib.go_func_body("compiler/circuits/circ_divider.go", r"NewUDivider\(") or ""
     ctx.fact("NewUDivider dispatch (GMW: Goldschmidt; Yao: long division)",
              ["NewUDividerGoldschmidtFast" in div, "NewUDividerLong" in div], [True, True])
 
@@ -103,7 +109,7 @@ def run(ctx):
         ctx.leanchecker("MpcVerif.Props.C09")
     ctx.build_drv()
     facts(ctx)
-    n = 40 if ctx.tier == "quick" else 260
+    n = 60 if ctx.tier == "quick" else 350
     seeds = [ctx.seed] if ctx.tier == "quick" else [ctx.seed, ctx.seed + 1000, ctx.seed + 2000]
     stats = {"pairs": 0, "validated": 0, "not_validated": 0, "corpus_pairs": 0, "corpus_validated": 0,
              "by_kind": {}, "not_validated_examples": []}
@@ -114,6 +120,15 @@ def run(ctx):
             ctx.absorb_meta(meta)
             if meta.get("divider_probe_uint7"):
                 ctx.coverage["divider_probe_uint7"] = meta["divider_probe_uint7"]
+            if meta.get("negation_witness"):
+                # the two circuits of Mpc.C09_target_equivalence_fails are what the compiler produces today?
+                lean = open(os.path.join(vlib.LEAN, "MpcVerif/Props/C09.lean")).read()
+                baked = re.findall(r"line format: `([^`]*)`", lean)
+                nw = meta["negation_witness"]
+                ctx.coverage["negation_witness"] = {
+                    "program": nw.get("src"), "input": nw.get("x"), "compute_yao": nw.get("out_yao"),
+                    "compute_gmw": nw.get("out_gmw"),
+                    "lean_circuits_are_todays_compiler_output": baked == [nw.get("yao"), nw.get("gmw")]}
             ctx.correspond("Compute/AssignLevels/level sorts: Lean model = real code (seed %d)" % s, ops, out,
                            canon=strip_chk)
             for tag, verdict, info in pair_results(ctx, ops, out, meta, s):
@@ -179,8 +194,8 @@ def run(ctx):
         "model is tied to circuit.Circuit.Compute on 3 sampled inputs per pair",
         "threshold and Yao-vs-GMW equivalence is TESTED by bit-parallel simulation (exhaustive for <= 16 input bits, else "
         "sampled), not proved; only raw/prune-off/prune-on pairs per target and threshold are proved per program",
-        "an output wire that no gate drives reads as 0 (Compute: make([]byte, NumWires)); the checker rejects such "
-        "circuits and they are covered by simulation only",
+        "an output wire that no gate drives reads as 0 (Compute: make([]byte, NumWires)); modelled so in Lean "
+        "(initStore) and in the checker (outAbs)",
         "circuits larger than the tier's size limits are skipped (counted in coverage.counters)",
     ]
     ctx.trusted = list(vlib.DEFAULT_TRUSTED) + [
